@@ -26,6 +26,9 @@ pub fn gen_c01_space(r: &mut Rng, frames: i32) -> Scn {
     s.sticky = r.pick(&[1u32, 1, 3, 10]);
     s.frames = frames;
     s.desync = if r.chance(0.5) { Some(r.range(1, 12) as u32) } else { None };
+    // a quarter of the sessions without detection save their states WITHOUT checksums (legitimate use of the API);
+    // derived from the scenario seed so that no extra draw shifts the rest of the generation
+    s.no_checksum = s.desync.is_none() && (s.seed >> 7) % 4 == 0;
     s.notify_ms = 50_000;
     s.timeout_ms = 60_000;
     s.link = gen_link(r);
@@ -74,6 +77,7 @@ pub fn gen_link(r: &mut Rng) -> Link {
         jitter_ms: r.pick(&[0u64, 0, 5, 40, 60]),
         outages: vec![],
         faults: vec![],
+        stragglers: vec![],
     }
 }
 
@@ -154,6 +158,7 @@ pub fn absorb_obs(o: &mut Outcome, c: &Core) {
     o.count("packets_dropped", st.dropped_random + st.dropped_outage + st.dropped_script);
     o.count("packets_duplicated", st.duplicated);
     o.count("packets_delivered_out_of_order", st.delivered_out_of_order);
+    o.count("straggling_late_duplicates", st.stragglers);
     o.count("input_packets_resending_frames", st.input_retransmissions);
     let mut loads = 0;
     for n in &c.nodes {
@@ -169,6 +174,10 @@ pub fn absorb_obs(o: &mut Outcome, c: &Core) {
         }
         o.count("max_rollback_depth", n.game.c.max_depth as u64);
         o.count("loads_of_resaved_cells", n.game.c.loads_of_resaved);
+        o.count("loads_of_stale_cells_executed_leniently", n.game.stale_loads);
+    }
+    if c.scn.no_checksum {
+        o.count("runs_saving_without_checksums", 1);
     }
     o.count("rollbacks", loads);
     if c.hit_limit {
@@ -284,7 +293,7 @@ pub fn gen_death2(r: &mut Rng, frames: i32) -> Scn {
     s.frames = frames;
     s.notify_ms = r.pick(&[100u64, 300, 500, 1000]);
     s.timeout_ms = s.notify_ms + r.pick(&[0u64, 200, 1500]);
-    s.link = Link { drop: r.pick(&[0.0, 0.0, 0.05]), dup: r.pick(&[0.0, 0.1]), base_ms: r.pick(&[0u64, 10, 40]), jitter_ms: r.pick(&[0u64, 5]), outages: vec![], faults: vec![] };
+    s.link = Link { drop: r.pick(&[0.0, 0.0, 0.05]), dup: r.pick(&[0.0, 0.1]), base_ms: r.pick(&[0u64, 10, 40]), jitter_ms: r.pick(&[0u64, 5]), outages: vec![], faults: vec![], stragglers: vec![] };
     s.kill = Some(Kill { node: 1, at_ms: r.range(1500, 3000), pdrop: r.pick(&[0.0, 0.5, 1.0]) });
     s.start = Start::AllRunning;
     s.settle_ms = 500;
